@@ -77,10 +77,12 @@ def mk_replay(name, which):
         if isinstance(name, int):
             tmpl = c0910lib.GEN[lname]
             kname = 'gen'
-            if '= (SELECT max(z)' in tmpl and which == 10:
+            on_part = tmpl[tmpl.index(' ON ') + 4:] if ' ON ' in tmpl else tmpl[tmpl.index(' FROM ') + 6:]
+            on_only = on_part.split(' WHERE ')[0]
+            if '(SELECT' in on_only and which == 10:
                 cls = 'subquery-in-join-condition-not-planned'
             else:
-                cls = cls + ':' + tmpl[tmpl.index(' ON ') + 4:][:60]
+                cls = cls + ':' + on_part[:60]
         key = ('plan-wellformed:%s:%s' if which == 9 else 'routing:%s:%s') % (kname, cls)
         return bool(pr), dict(info, problems=pr[:4]), key, '%s: %s' % (info.get('sql'), pr[0] if pr else '')
     return replay
@@ -98,7 +100,7 @@ def run_for(pid, which, tier):
                        'plans are compared case-insensitively (the DML target identifier keeps the user spelling; resolving it is the executor\'s job)']
     specs = [dict(fn='fam_%s' % fn, twin='fam_%s_reach' % fn, replay=mk_replay(name, which)) for fn, name in names if fn != 'GEN']
     specs += [dict(fn='gen_%d' % base, twin=None, replay=mk_replay(base, which)) for fn, base in names if fn == 'GEN']
-    run.bounds['generated_join_family'] = '%d statements: 3 join kinds x 16 ON shapes x 7 WHERE shapes x 3 select/tail shapes, x 2 spellings each of int1/int2 x catalog forms' % len(c0910lib.GEN)
+    run.bounds['generated_join_family'] = '%d statements: 3 join kinds x 16 ON shapes x 7 WHERE shapes x 3 select/tail shapes; a second block of select-list / tail shapes; a third block joining two tables of ONE integration with a subquery on another integration in WHERE / select list / CASE / function argument; x 2 spellings each of int1/int2 x catalog forms' % len(c0910lib.GEN)
     ch_obligations(run, path, specs, cond_to=300 if tier == 'quick' else 900, path_to=60)
     for name in list(c0910lib.SK)[:3]:
         run.sample({'skeleton': name, 'template': c0910lib.SK[name][0]})
